@@ -69,6 +69,21 @@ func rtCursor(a *aggregator, v *rtView) {
 		}
 		return
 	}
+	// the cursor algorithm sorts the offsets first; without that the function is written another way
+	// (a line table with a search per offset, …) and the cursor invariant is not its proof obligation
+	hasSort := false
+	instrsOf(f, func(in ssa.Instruction) {
+		if cl, ok := in.(*ssa.Call); ok && strings.HasPrefix(calleeName(cl), "slices.Sort") {
+			hasSort = true
+		}
+		if cl, ok := in.(*ssa.Call); ok && strings.HasPrefix(calleeName(cl), "sort.") {
+			hasSort = true
+		}
+	})
+	if !hasSort {
+		a.OK("R-cursor", construct, cfg, v.in.srcPos(f.Pos()), "translatePositions does not sort the offsets and walk them with a cursor: the cursor invariant does not apply to this shape (its results are compared with the definition by R-linecol-semantics)")
+		return
+	}
 	// positions must not be modified after the initial sort
 	mod := ""
 	instrsOf(f, func(in ssa.Instruction) {
